@@ -123,4 +123,47 @@ theorem strip_keeps_line_count (cs : List Char) (h : endsInComment false cs = fa
   have := strip_count cs false
   simpa [Driver.stripComments, h] using this
 
+/-! ### the emission templates use their operands completely and in source order -/
+
+def argsOf (fmt : List Grammar.Piece) : List Nat := fmt.filterMap fun | .arg i => some i | _ => none
+
+def increasing : List Nat → Bool
+  | a :: b :: rest => a < b && increasing (b :: rest)
+  | _ => true
+
+/-- symbols that carry a value the emitted line must contain: every non-terminal / optional / regex
+    symbol except the fixed keywords (`quote_*` tables of one word such as `quote_mov`, `reg_cl`, `cs_reg`) -/
+noncomputable def valueBearing (tables : List (List Char)) : Grammar.Sym → Bool
+  | .nt n => !(n == "reg_cl" || n == "cs_reg") && (!(n.startsWith "quote_") || tables.contains n.toList)
+  | .opt _ => true
+  | .re _ => true
+  | _ => false
+
+/-- mnemonic tables whose value IS part of the line (the canonical mnemonic): all `quote_*` tables
+    with more than one canonical output -/
+noncomputable def mnemonicTables : List (List Char) :=
+  (Gen.PP.retTables.filter fun t => (t.2.map (·.2)).eraseDups.length > 1).map (·.1)
+
+noncomputable def templateOk (name : String) (a : Grammar.Alt) : Bool :=
+  match a.act with
+  | .code fmt pos =>
+    pos == 0
+    && (increasing (argsOf fmt) || name == "xchg")
+    && ((List.range a.syms.length).all fun i => !(valueBearing mnemonicTables (a.syms.getD i .locL)) || (argsOf fmt).contains i)
+  | _ => true
+
+/-- **Every instruction template of the CURRENT grammar** records the instruction's own start
+    position, contains every operand of its alternative, and (XCHG apart, which is symmetric) in the
+    order in which the source gives them — so no operand is dropped, duplicated into another's place
+    or swapped.  Decided by the kernel over the regenerated grammar data. -/
+theorem templates_complete_and_ordered :
+    Gen.PP.grammar.all (fun p => match p.2 with
+      | .alts as => as.all (templateOk p.1)
+      | .plus _ => true) = true := by
+  decide +kernel
+
+/-- non-vacuity: the mnemonic tables are among the value-bearing symbols -/
+example : (mnemonicTables.contains "quote_binary_arithmetic".toList && mnemonicTables.contains "quote_jmps_loops".toList
+           && !mnemonicTables.contains "quote_mov".toList) = true := by decide +kernel
+
 end Emu8086.Props.C11
